@@ -26,6 +26,7 @@ inductive Err where
   | notFound       -- ProductNotFound from getProduct
   | cycle          -- RuntimeError out of uses() (topologicalSort's second exit)
   | outOfFuel      -- RecursionError
+  | tableError     -- TableFileNotFound from `product.getTable()` (declared table file missing on disk)
 deriving Repr, DecidableEq
 
 inductive Outcome where
@@ -60,11 +61,15 @@ def collectLoop (sb : Option SetupBy) (force : Bool) (top : Str × Str) (recursi
       | .ok (sub, seen') => collectLoop sb force top recursive recur qs (acc ++ sub ++ [q]) seen'
     else collectLoop sb force top recursive recur qs (acc ++ [q]) seen
 
-/-- `deps = [[product, False, 0]]; if recursive and not seen: deps += tbl.dependencies(self)` (not recursive:
-direct dependencies only); `none` = out of fuel in an unsetup branch -/
-def directDeps (db : Db) (p : Prod) (expand : Bool) : Option (List Prod) :=
-  if expand then (depsOf db db.fuel [] p false 0 St.empty).map fun r => p :: r.1.map (·.prod)
-  else some [p]
+/-- `deps = [[product, False, 0]]; if recursive and not seen: tbl = product.getTable(); deps += tbl.dependencies(self)`
+(not recursive: direct dependencies only) -/
+def directDeps (db : Db) (p : Prod) (expand : Bool) : Except Err (List Prod) :=
+  if expand then
+    if db.tableMissing p then .error .tableError
+    else match depsOf db db.fuel [] p false 0 St.empty with
+      | none => .error .outOfFuel         -- only in an unsetup branch
+      | some r => .ok (p :: r.1.map (·.prod))
+  else .ok [p]
 
 /-- `Eups._remove`: the list `productsToRemove` (with repetitions) and the visited set.  A product's
 dependencies are collected the first time it is met with `recursive` set (so a dependency cycle ends). -/
@@ -78,8 +83,8 @@ def collect (db : Db) (sb : Option SetupBy) (force : Bool) (defaultName : Option
       | some p =>
         let expand := recursive && !seen.contains (prodkey p)
         match directDeps db p expand with
-        | none => .error .outOfFuel
-        | some deps =>
+        | .error e => .error e
+        | .ok deps =>
           collectLoop sb force top recursive
             (fun q sn => collect db sb force defaultName top f q.name q.ver (q.name != name) sn) deps []
             (if expand then prodkey p :: seen else seen)
